@@ -79,17 +79,17 @@ theorem C04_bare_no_reserved_prefix (s : Str) (h : needsQuotes s = false) : hasR
 
 /-- **Bare identifiers survive.**  Whenever the emitter leaves an identifier-shaped string bare, the lexer reads the
 emitted text back as ONE IDENTIFIER token carrying exactly that string and consuming exactly that text, with no
-normalisation receipt — for every such string (any length), every environment, every lexer state that is not at
-offset 0 or at a fence, both lexer modes, and every continuation allowed after a bare value (`TermOK`: end of
+normalisation receipt — for every such string (any length), every environment, every lexer state that is past the
+document start (something other than whitespace was consumed) and not at a fence, both lexer modes, and every continuation allowed after a bare value (`TermOK`: end of
 input, or a char that neither extends an identifier nor opens an annotation tail — newline, comma, `]`, space). -/
 theorem C04_bare_identifier_step (env : Env) (lenient : Bool) (st : LState) (s rest : Str)
     (hq : needsQuotes s = false) (hid : isIdentifierText s = true) (hterm : TermOK env rest)
-    (hspan : atSpanStart st = false) (hpos : st.pos ≠ 0) :
+    (hspan : atSpanStart st = false) (hpos : st.blank = false) :
     emitStr s = s ∧
     step env lenient st (emitStr s ++ rest) = .ok ({ st with
         pos := st.pos + s.length, prev := s.getLast?.orElse (fun _ => st.prev), col := st.col + s.length,
         toks := { type := .identifier, value := .str s, line := st.line, col := st.col } :: st.toks,
-        repairs := (identifierRepairs s st.line st.col).reverse ++ st.repairs }, rest) := by
+        repairs := (identifierRepairs s st.line st.col).reverse ++ st.repairs, blank := false }, rest) := by
   have he : emitStr s = s := by simp [emitStr, hq]
   refine ⟨he, ?_⟩
   rw [he]
@@ -107,13 +107,12 @@ lexer on the quoted lexeme the emitter writes, followed by any continuation that
 appends exactly one STRING token whose value is `s` at the step's line/column, consumes exactly the lexeme and
 records no receipt. -/
 theorem C04_quoted_step (env : Env) (lenient : Bool) (st : LState) (s rest : Str)
-    (hrest : rest.head? ≠ some '"') (hspan : atSpanStart st = false) (hpos : st.pos ≠ 0) :
+    (hrest : rest.head? ≠ some '"') (hspan : atSpanStart st = false) (hpos : st.blank = false) :
     ∃ st', step env lenient st (quoted s ++ rest) = .ok (st', rest)
       ∧ st'.toks = { type := .string, value := .str s, line := st.line, col := st.col } :: st.toks
       ∧ st'.repairs = st.repairs := by
-  have hpos' : (st.pos == 0) = false := by simpa using hpos
   have hm := C04_quoted_token env st.prev s rest hrest
-  rw [← hpos'] at hm
+  rw [← hpos] at hm
   have h := pattern_step env lenient st '"' (escape s ++ ['"'] ++ rest)
     { type := .string, value := .str s, text := quoted s, rest := rest } hspan (by decide)
     (by simpa [quoted] using hm) (by simp) (by simp)
